@@ -288,6 +288,11 @@ func TestRaceCold(t *testing.T) {
 			must(err)
 			act(func() { _ = cf.SetPwm(100) }) // control loop
 			act(func() { _, _ = util.SafeCmdExecution(script, nil, 2*time.Second) })
+			// ... and commands that run into their deadline while others are running
+			hang := filepath.Join(dir, "coldhang"+sfx+".sh")
+			writeScript(hang, "sleep 5\n")
+			act(func() { _, _ = util.SafeCmdExecution(hang, nil, 20*time.Millisecond) })
+			act(func() { _, _ = util.SafeCmdExecution(hang, nil, 20*time.Millisecond) })
 		}
 		close(gate)
 		cw.Wait()
